@@ -240,7 +240,7 @@ fn parse_time_str(timestamp: &str) -> u64 {
 /// 29th of Feb might be an exception (if current or prev year) is not valid...
 ///
 fn parse_mmdd_str(mmdd: &str, ref_date: &NaiveDate) -> Option<NaiveDate> {
-    if mmdd.len() != 5 {
+    if mmdd.len() != 5 || !mmdd.is_ascii() {
         return None;
     }
     let mm: u32 = mmdd[0..2].parse::<u32>().unwrap_or_default();
@@ -271,7 +271,8 @@ fn parse_mmdd_str(mmdd: &str, ref_date: &NaiveDate) -> Option<NaiveDate> {
 /// parse a string in logcat threadtime format:
 /// mm-dd hh:mm:ss.mss
 fn parse_threadtime_str(timestamp: &str, ref_date: &NaiveDate) -> Option<NaiveDateTime> {
-    if timestamp.len() != 18 {
+    if timestamp.len() != 18 || !timestamp.is_ascii() {
+        // (\d matches non ascii digits as well. The byte offsets used below expect ascii)
         None
     } else {
         let date = parse_mmdd_str(&timestamp[0..5], ref_date).unwrap_or(*ref_date);
@@ -369,7 +370,13 @@ where
                                 ctid: self.ctid.to_owned(),
                             }),
                             payload,
-                            payload_text: Some(cap_str[loc_timestamp.1 + 1..].to_owned()),
+                            payload_text: Some(
+                                // skip the (whitespace, might be a multi-byte) char after the timestamp
+                                cap_str[loc_timestamp.1..]
+                                    .chars()
+                                    .skip(1)
+                                    .collect::<String>(),
+                            ),
                             lifecycle: 0,
                         };
 
@@ -467,7 +474,13 @@ where
                                     ctid: self.ctid.to_owned(),
                                 }),
                                 payload,
-                                payload_text: Some(cap_str[loc_timestamp.1 + 1..].to_owned()),
+                                payload_text: Some(
+                                // skip the (whitespace, might be a multi-byte) char after the timestamp
+                                cap_str[loc_timestamp.1..]
+                                    .chars()
+                                    .skip(1)
+                                    .collect::<String>(),
+                            ),
                                 lifecycle: 0,
                             };
 
